@@ -357,6 +357,9 @@ pub fn claims_pairs() -> Vec<(Item, Item)> {
             Item::float(f64::INFINITY),
             Item::float(f64::NAN),
             Item::float(-0.0),
+            Item::float(5e-324),
+            Item::float(f64::MIN_POSITIVE),
+            Item::float(f64::NEG_INFINITY),
             t("1"),
             NULL,
             b(b"\x01"),
@@ -444,6 +447,9 @@ pub fn msg_slots() -> Vec<Item> {
         arr(vec![r_bad.clone()]),
         arr(vec![r_nest2_bad.clone()]),
         arr(vec![r_nest3_bad.clone()]),
+        // two elements whose header maps use the same labels (state must not leak between elements)
+        arr(vec![sig_valid2(), sig_valid2()]),
+        arr(vec![r_valid_nil.clone(), r_valid_nil.clone()]),
         // the fault in the second element of a list
         arr(vec![r_valid.clone(), r_bad.clone()]),
         arr(vec![r_valid.clone(), r_nest2_bad.clone()]),
